@@ -8,7 +8,7 @@ from vlib.ref import script as R
 from vlib.util import call, expect_eq, must_raise, must_return
 
 PROPERTY_ID = "C19"
-OPTIMIZED = ['push-lengths', 'prefixes', 'binary', 'varint']   # clauses run a second time under `python -O` (assert statements stripped)
+OPTIMIZED = ['push-lengths', 'prefixes', 'binary', 'varint', 'scripts', 'edits']   # clauses run a second time under `python -O` (assert statements stripped)
 RULE = ("scripts are lists of opcodes (bytes that are not push prefixes) and data elements "
         "described as (length, start, step) and expanded deterministically; parser inputs are "
         "prefixes / edits of valid serialisations and arbitrary byte strings")
